@@ -21,7 +21,8 @@ def _elementwise(ctx, fname):
     rets = [s for s in f.body if isinstance(s, ast.Return)]
     if len(rets) != 1 or any(isinstance(s, (ast.If, ast.For, ast.While, ast.Try)) for s in f.body):
         raise AnalysisError("%s is not straight-line code with a single return" % fname)
-    call = rets[0].value
+    from ..canon import canon
+    call = canon(rets[0].value)          # x.mean() and np.mean(x) alike
     red = dotted(call.func) if isinstance(call, ast.Call) else None
     return f, call, red
 
@@ -336,7 +337,8 @@ def rule_flat(ctx):
                 walk(e.args[0])
             else:
                 leaves.append(e)
-        walk(rets[0].value)
+        from ..canon import canon as _canon
+        walk(_canon(rets[0].value))          # x.mean() and np.mean(x) alike
         involved = [l_ for l_ in leaves if any(isinstance(n_, ast.Name) and (n_.id in params or flow.defs(n_.id, rets[0]) not in ([], ["param"]) and n_.id not in ("np",)) for n_ in ast.walk(l_))]
         if not involved:
             raise AnalysisError("%s: operands of the element-wise expression not found" % name)
